@@ -161,6 +161,10 @@ def check(ctx):
         ctx.bad("C04.3", "numbering/new-name", fn["sp"], "the statement that writes the new name was not found")
     with ctx.only(lambda k: k in ("grouping", "grouping-key")):       # families are formed by the full path: only types that share a path are ever renamed
         c03.grouping(ctx)
+    # `generation succeeds afterwards`: the generator judges a later same-path type against the FIRST kept one, as the grouping above does
+    from .. import gen_rules as _G
+    with ctx.only(lambda k: k.startswith("keep-first/")):
+        _G.keep_first_or_error(ctx, "C04.7")
     # C04.7: `instantiations of one generic definition still share one path` and `only types that shared a path with a DIFFERENTLY shaped
     # type are renamed` both need the shape comparator to compare CORRESPONDING fields of the two operands (a necessary condition for
     # answering `equal` on equal shapes): the symmetric-coverage instances of C03.2 are evaluated here under C04's own rule id.
